@@ -302,6 +302,9 @@ pub trait Invariant {
 		out: &Outcome,
 		rep: &mut Report,
 	);
+	/// called after `check` for a probe (snapshot explorer): the live object may be driven
+	/// further (differential continuation); `parent_dir` is the snapshot the probe started from
+	fn after_probe(&mut self, _live: &mut Live<'_>, _parent_dir: &Path, _sc: &uni::Scratch, _prefix: &[Ev], _rep: &mut Report) {}
 	/// called when no event remains
 	fn at_end(&mut self, _live: &Live<'_>, _prefix: &[Ev], _after: &Fp, _rep: &mut Report) {}
 }
@@ -320,6 +323,9 @@ pub struct Explorer<'a> {
 	/// deliver a block only when its parent body is accepted, and never twice (C02; the
 	/// other orders belong to C03)
 	pub parent_first: bool,
+	/// probe-heavy engines: every shard walks the whole (small) state graph and the probes are
+	/// divided among the shards by hash of (state, probe)
+	pub probe_split: bool,
 }
 
 pub fn case_json(inst: &str, tree: &Tree, prefix: &[Ev]) -> Value {
@@ -348,6 +354,7 @@ impl<'a> Explorer<'a> {
 			shard: (0, 1),
 			branch_ctr: 0,
 			parent_first: false,
+			probe_split: false,
 		}
 	}
 
@@ -403,7 +410,7 @@ impl<'a> Explorer<'a> {
 			live.fp()
 		};
 		let mut prefix = vec![];
-		let range = (0usize, self.shard.1);
+		let range = if self.probe_split { (self.shard.0, self.shard.0 + 1) } else { (0usize, self.shard.1) };
 		self.snap(&mut prefix, &root, &Model::default(), &fp0, &mut remaining, probes, inv, rep, range);
 		let _ = std::fs::remove_dir_all(&root);
 	}
@@ -441,7 +448,7 @@ impl<'a> Explorer<'a> {
 		let me = self.shard.0;
 		// the lowest shard of the range that shares this state runs its probes
 		let probe_here = range.0 == me;
-		let mut step = |this: &mut Self, ev: &Ev, prefix: &mut Vec<Ev>, rep: &mut Report, inv: &mut dyn Invariant| -> (PathBuf, Model, Fp) {
+		let mut step = |this: &mut Self, ev: &Ev, prefix: &mut Vec<Ev>, rep: &mut Report, inv: &mut dyn Invariant, is_probe: bool| -> (PathBuf, Model, Fp) {
 			let d = this.sc.fresh("s");
 			uni::copy_dir(dir, &d);
 			let mut live = Live::open_model(this.tree, &d, this.opts, model.clone());
@@ -474,20 +481,28 @@ impl<'a> Explorer<'a> {
 				}
 			));
 			inv.check(&live, prefix, fp_here, &after, &out, rep);
+			if is_probe {
+				inv.after_probe(&mut live, dir, this.sc, prefix, rep);
+			}
 			prefix.pop();
 			let m = live.model.clone();
 			drop(live);
 			(d, m, after)
 		};
 		// probes
-		for p in probes {
+		let here_key = hash64(&(fp_here.digest(), &model.accepted));
+		for (pi, p) in probes.iter().enumerate() {
 			if !self.enabled(model, p) {
 				continue;
 			}
-			if !probe_here {
+			if self.probe_split {
+				if (hash64(&(here_key, pi)) % self.shard.1 as u64) as usize != me {
+					continue;
+				}
+			} else if !probe_here {
 				continue; // states shared by several shards are probed once
 			}
-			let (d, _, _) = step(self, p, prefix, rep, inv);
+			let (d, _, _) = step(self, p, prefix, rep, inv, true);
 			let _ = std::fs::remove_dir_all(&d);
 		}
 		// children and the sub-range of shards each one is given
@@ -520,7 +535,7 @@ impl<'a> Explorer<'a> {
 			if me < child_range.0 || me >= child_range.1 {
 				continue;
 			}
-			let (d, m, after) = step(self, &ev, prefix, rep, inv);
+			let (d, m, after) = step(self, &ev, prefix, rep, inv, false);
 			remaining.remove(idx);
 			let key = hash64(&(after.digest(), &m.accepted, &*remaining));
 			if self.memo.insert(key) {
@@ -679,11 +694,7 @@ impl TreeBuilder {
 		self.chain
 			.process_block(b.clone(), self.opts())
 			.unwrap_or_else(|e| panic!("builder refused {}: {:?}", name, e));
-		self.tree.blocks.push(UB {
-			name: name.into(),
-			block: b,
-			parent,
-		});
+		self.tree.blocks.push(UB::new(name, b, parent));
 		self.tree.blocks.len() - 1
 	}
 	/// Add a valid block with an explicit difficulty, no PoW (SKIP_POW universes, C03).
@@ -725,11 +736,7 @@ impl TreeBuilder {
 		self.chain
 			.process_block(b.clone(), Options::SKIP_POW)
 			.unwrap_or_else(|e| panic!("builder refused {}: {:?}", name, e));
-		self.tree.blocks.push(UB {
-			name: name.into(),
-			block: b,
-			parent,
-		});
+		self.tree.blocks.push(UB::new(name, b, parent));
 		self.tree.blocks.len() - 1
 	}
 	/// Add a block that the reference ledger deems invalid on its ancestors: built as the valid
@@ -763,12 +770,21 @@ impl TreeBuilder {
 		if !self.skip_pow {
 			uni::remine(&mut b, &prev);
 		}
-		self.tree.blocks.push(UB {
-			name: name.into(),
-			block: b,
-			parent,
-		});
+		self.tree.blocks.push(UB::new(name, b, parent));
 		self.tree.blocks.len() - 1
+	}
+	/// Add a corrupted variant of valid block `of` (same parent) from the closed catalogue.
+	pub fn add_corrupt(&mut self, of: usize, c: &crate::corrupt::Corruption) -> Option<usize> {
+		let parent = self.tree.blocks[of].parent;
+		let prev = self.header_of(parent);
+		let b = crate::corrupt::apply(c.name, &self.tree.blocks[of].block, &prev)?;
+		let mut ub = UB::new(&format!("{}~{}", self.tree.blocks[of].name, c.name), b, parent);
+		ub.bad = Some(c.name.to_string());
+		ub.header_valid = c.header_valid;
+		ub.of = if c.same_hash { Some(of) } else { None };
+		ub.variant_of = Some(of);
+		self.tree.blocks.push(ub);
+		Some(self.tree.blocks.len() - 1)
 	}
 	pub fn finish(self) -> Tree {
 		let t = self.tree.clone();
